@@ -339,11 +339,22 @@ func (c *c10Case) runHistory(ctx *core.Ctx) {
 }
 
 // runData: the caller's data is deep-equal before and after the call.
+// catVars is a map type of the caller's own (its underlying type is what the engine works with)
+type catVars map[string]any
+
 func (c *c10Case) runData(ctx *core.Ctx) {
 	p := programByName(c.Prog)
 	ctx.NonTrivial()
-	data := p.Data("CANARY")
+	base := p.Data("CANARY")
 	want := p.Data("CANARY")
+	// the datum as the caller holds it: the map itself, a named map type over it, a pointer to it
+	var data any = base
+	switch c.Data {
+	case "named":
+		data = catVars(base)
+	case "ptrmap":
+		data = &base
+	}
 	var buf bytes.Buffer
 	withPlan(&vrtPlan{}, func() {
 		ctx.Eval(1)
@@ -358,17 +369,17 @@ func (c *c10Case) runData(ctx *core.Ctx) {
 			_ = catEngine().Fill(data).RenderFile(bg, &buf, p.Page)
 		}
 	})
-	if !reflect.DeepEqual(data, want) {
+	if !reflect.DeepEqual(base, want) {
 		var diff []string
-		for k := range data {
+		for k := range base {
 			if _, ok := want[k]; !ok {
 				diff = append(diff, "+"+k)
-			} else if !reflect.DeepEqual(data[k], want[k]) {
+			} else if !reflect.DeepEqual(base[k], want[k]) {
 				diff = append(diff, "~"+k)
 			}
 		}
 		for k := range want {
-			if _, ok := data[k]; !ok {
+			if _, ok := base[k]; !ok {
 				diff = append(diff, "-"+k)
 			}
 		}
@@ -376,7 +387,7 @@ func (c *c10Case) runData(ctx *core.Ctx) {
 		if p.HasFM {
 			class = "front-matter-written"
 		}
-		ctx.Violation("caller-data-modified", c.Entry, class, fmt.Sprintf("program %s via %s: caller's map changed: %v", c.Prog, c.Entry, diff))
+		ctx.Violation("caller-data-modified", c.Entry+c.Data, class, fmt.Sprintf("program %s via %s (data as %q): caller's map changed: %v", c.Prog, c.Entry, c.Data, diff))
 	}
 	ctx.Outcome(c.Entry)
 }
@@ -417,7 +428,7 @@ func init() {
 		ID:    "C10",
 		Level: "model_checking",
 		Rule: "a catalogue of " + fmt.Sprint(len(Catalog)) + " programs (one per feature, incl. 6 failing ones), all on one file set. (1) map-order: with every map iteration of the vuego module behind a seam, every execution with <=d deviating occurrences (all permutations for <=4 keys, reversal+rotations above) plus two global orders must give the bytes of the ascending-order run (the looped maps also keyed by int, float64 and any); " +
-			"(2) histories: every ordered sequence of <=L (program, data set) steps - each program with its normal and with an alternative data set that flips every boolean and changes lengths and strings, with the same values in other Go types (float64 for int, typed slices and maps, a struct for a map), and without any data (nil / empty map) - on one engine through Load().Fill().Render, Vue.Render and Vue.RenderFragment, last render compared with a fresh engine, no canary of an earlier render; (3) caller data deep-equal before/after through 4 entry points; (4) frozen and backwards clocks. states = executions whose output was compared; non-trivial = program reaches at least one map iteration / any history",
+			"(2) histories: every ordered sequence of <=L (program, data set) steps - each program with its normal and with an alternative data set that flips every boolean and changes lengths and strings, with the same values in other Go types (float64 for int, typed slices and maps, a struct for a map), and without any data (nil / empty map) - on one engine through Load().Fill().Render, Vue.Render and Vue.RenderFragment, last render compared with a fresh engine, no canary of an earlier render; (3) caller data deep-equal before/after through 4 entry points, handed over as map[string]any, as a named map type and as a pointer to the map; (4) frozen and backwards clocks. states = executions whose output was compared; non-trivial = program reaches at least one map iteration / any history",
 		Bounds:      map[string]string{"quick": "d=1 deviation, L=2 (all ordered pairs)", "thorough": "d=2 deviations, L=3 (all ordered triples)"},
 		Assumptions: []string{"the instrumenter finds every range-over-map and MapKeys call of the vuego module by type (sites listed in the overlay's sites.json)", "map iteration inside dependencies (expr-lang, yaml, goldmark) is not controlled"},
 		Decode:      core.DecodeAs[c10Case](),
@@ -436,6 +447,8 @@ func init() {
 			for _, p := range Catalog {
 				for _, e := range []string{"template", "vue", "fragment", "renderfile"} {
 					emit(&c10Case{Part: "data", Prog: p.Name, Entry: e})
+					emit(&c10Case{Part: "data", Prog: p.Name, Entry: e, Data: "named"})
+					emit(&c10Case{Part: "data", Prog: p.Name, Entry: e, Data: "ptrmap"})
 				}
 				emit(&c10Case{Part: "clock", Prog: p.Name})
 			}
